@@ -34,7 +34,7 @@ class Context(object):
 
 
 def gen_plan(seed, k):
-    return workload.chart_and_history(seed, k, features={"par_p": 0.6})
+    return workload.chart_and_history(seed, k, features={"par_p": 0.5, "hist_p": 0.2})
 
 
 def oracle(plan, res):
